@@ -1,3 +1,170 @@
-(* Props/C11.v -- property theorems only *)
-From Coq Require Import NArith List.
-From Falcon Require Import Base.Res Graph.NMap Graph.Graph Graph.Algo Graph.Spec Graph.Oracle Graph.C11Check.
+(* Props/C11.v -- property theorems only (statements at full strength; proofs are in Graph/*.v).
+   [U] unbounded, [F] finite domain by computation, [V] verified validator evaluated on every output. *)
+From Coq Require Import NArith List Bool.
+From Falcon Require Import Base.Res Graph.NMap Graph.NMapFacts Graph.Graph Graph.GraphInv Graph.Algo Graph.Spec
+  Graph.Oracle Graph.OracleProofs Graph.ReachProofs Graph.C11Check Graph.SemiNca3 Graph.Small3 Graph.DomTheory
+  Graph.OrderProofs Graph.LoopProofs Graph.BackEdges.
+Import ListNotations.
+Local Open Scope N_scope.
+
+(* [U] the four views stay mutually consistent (GraphInv.graph_inv: sorted unique keys, payload index =
+   key, successors/predecessors have exactly the vertex keys and describe exactly the edge set, every
+   edge end is a vertex) after ANY sequence of insert/remove operations from the empty graph; failing
+   operations return Err (never Panic) and leave the graph unchanged (gstep). *)
+Theorem graph_inv : forall (V E : Type) (HV : Vertex V) (HE : Edge E) (ops : list (@gop V E)),
+  GraphInv.graph_inv (fold_left gstep ops (new : graph V E)) /\
+  forall pre o post, ops = pre ++ o :: post -> gapply (fold_left gstep pre (new : graph V E)) o <> Panic.
+Proof. intros V E HV HE ops. exact (graph_inv_ops ops new graph_inv_new). Qed.
+Print Assumptions graph_inv.
+
+(* [U] one step, from any consistent graph *)
+Theorem graph_inv_step : forall (V E : Type) (HV : Vertex V) (HE : Edge E) (g : graph V E) (o : @gop V E),
+  GraphInv.graph_inv g -> gapply g o <> Panic /\ GraphInv.graph_inv (gstep g o).
+Proof. intros V E HV HE g o. exact (gapply_inv g o). Qed.
+Print Assumptions graph_inv_step.
+
+(* [U] remove_vertex removes exactly the vertex and its incident edges *)
+Theorem remove_vertex_effect : forall (V E : Type) (HV : Vertex V) (HE : Edge E) (g : graph V E) i,
+  GraphInv.graph_inv g -> has_vertex g i = true ->
+  exists g', remove_vertex g i = Ok g' /\ GraphInv.graph_inv g' /\
+    g_vertices g' = nm_remove i (g_vertices g) /\
+    g_edges g' = fold_left (fun m e => em_remove e m) (incident_edges g i) (g_edges g) /\
+    (forall h t, em_mem (h, t) (g_edges g') = negb (h =? i) && negb (t =? i) && em_mem (h, t) (g_edges g)).
+Proof. intros V E HV HE g i. exact (remove_vertex_inv g i). Qed.
+Print Assumptions remove_vertex_effect.
+
+(* [U] reachability: the work-list routine returns exactly { v | there is a path from r to v } *)
+Theorem reachable_correct : forall (V E : Type) (HV : Vertex V) (HE : Edge E) (g : graph V E) r,
+  GraphInv.graph_inv g -> has_vertex g r = true ->
+  exists s, reachable_vertices g r = Ok s /\ nsorted s /\ forall v, In v s <-> reach (edge_keys g) r v.
+Proof. intros V E HV HE g r Hgi Hr. exact (reachable_vertices_correct g Hgi r Hr). Qed.
+Print Assumptions reachable_correct.
+
+Theorem unreachable_correct : forall (V E : Type) (HV : Vertex V) (HE : Edge E) (g : graph V E) r,
+  GraphInv.graph_inv g -> has_vertex g r = true ->
+  exists s, unreachable_vertices g r = Ok s /\
+            forall v, In v s <-> (has_vertex g v = true /\ ~ reach (edge_keys g) r v).
+Proof. intros V E HV HE g r. exact (unreachable_vertices_correct g r). Qed.
+Print Assumptions unreachable_correct.
+
+(* [U]/[V] the validator evaluated in the kernel on every idom map the Rust code returns: if it
+   accepts, the map is exactly the textbook immediate-dominator relation (d strictly dominates v --
+   every path from the root to v passes through d -- and every strict dominator of v dominates d) *)
+Theorem idom_check_sound : forall vs es r m,
+  idom_check vs es r m = true -> forall v d, alook m v = Some d <-> idom es r d v.
+Proof. exact OracleProofs.idom_check_sound. Qed.
+Print Assumptions idom_check_sound.
+
+Example idom_check_accepts :
+  idom_check [0; 1; 2; 3] [(0, 1); (0, 2); (1, 3); (2, 3); (3, 1)] 0 [(1, 0); (2, 0); (3, 0)] = true.
+Proof. vm_compute. reflexivity. Qed.
+Example idom_check_rejects :
+  idom_check [0; 1; 2; 3] [(0, 1); (0, 2); (1, 3); (2, 3); (3, 1)] 0 [(1, 0); (2, 0); (3, 1)] = false.
+Proof. vm_compute. reflexivity. Qed.
+
+(* [V] validators for the structures derived from the idom map *)
+Theorem dominators_check_sound : forall vs es r m,
+  tab_ok vs es r = true -> dominators_ok (mk_tab vs es r) (verts vs es r) m = true ->
+  (forall v, In v (map fst m) <-> reach es r v) /\
+  (forall v D, In (v, D) m -> forall d, In d D <-> dom es r d v).
+Proof. intros vs es r m Hok. exact (dominators_ok_sound vs es r Hok m). Qed.
+Print Assumptions dominators_check_sound.
+
+Theorem df_check_sound : forall vs es r m,
+  tab_ok vs es r = true -> df_ok (mk_tab vs es r) (verts vs es r) es m = true ->
+  forall x F, In (x, F) m -> forall y, In y F <-> in_DF es r x y.
+Proof. intros vs es r m Hok. exact (df_ok_sound vs es r Hok m). Qed.
+Print Assumptions df_check_sound.
+
+(* [F] Semi-NCA (with compress) is correct on ALL digraphs with vertex set {0..n-1}, n <= 3, for every
+   root, unreachable vertices included: it returns Ok and its result is the immediate-dominator relation.
+   Bound n <= 3 (1 + 2 + 32 + 1536 graph/root pairs), by vm_compute.  Unbounded correctness of
+   Semi-NCA is NOT proved (see notes/C11.md): it is covered per output by idom_check ([V]). *)
+Theorem semi_nca_correct_le_3 : forall n mask root,
+  n <= 3 -> mask < 2 ^ (n * n) -> root < n ->
+  exists g m, build (range n) (edges_of n mask) = Ok g /\
+              compute_immediate_dominators g root = Ok m /\
+              forall v d, alook m v = Some d <-> idom (edges_of n mask) root d v.
+Proof. exact SemiNca3.semi_nca_correct_le_3. Qed.
+Print Assumptions semi_nca_correct_le_3.
+
+(* [F] on the same finite domain EVERY routine of the model returns Ok and satisfies the executable
+   reflection of its textbook definition (17 routines; see Graph/C11Check.alg_oracle) *)
+Theorem algorithms_correct_le_3 : forall n mask root,
+  1 <= n <= 3 -> mask < 2 ^ (n * n) -> root < n ->
+  exists g, build (range n) (edges_of n mask) = Ok g /\
+            all_true (alg_oracle (range n) (edges_of n mask) root (model_obs g root)) = true.
+Proof. exact Small3.algorithms_correct_le_3. Qed.
+Print Assumptions algorithms_correct_le_3.
+
+(* [U] the derivation compute_dominators performs from the idom map: doms(v) = {v} + doms(idom v), doms(r) = {r} *)
+Theorem dom_of_idom : forall es r i v, idom es r i v -> forall d, dom es r d v <-> (d = v \/ dom es r d i).
+Proof. exact DomTheory.dom_of_idom. Qed.
+Print Assumptions dom_of_idom.
+Theorem dom_of_root : forall es r d, dom es r d r <-> d = r.
+Proof. exact DomTheory.dom_root. Qed.
+Print Assumptions dom_of_root.
+
+(* [U] the derivation compute_dominance_frontiers performs from the idom map: at a join point y with
+   immediate dominator i the runner started at a predecessor p visits exactly the dominators of p that do
+   not dominate i; at the start node (which nothing dominates strictly) it visits the whole chain *)
+Theorem df_of_idom : forall es r i y, idom es r i y ->
+  forall x, in_DF es r x y <-> exists p, edge es p y /\ dom es r x p /\ ~ dom es r x i.
+Proof. exact DomTheory.df_of_idom. Qed.
+Print Assumptions df_of_idom.
+Theorem df_of_root : forall es r x, in_DF es r x r <-> exists p, edge es p r /\ dom es r x p.
+Proof. exact DomTheory.df_of_root. Qed.
+Print Assumptions df_of_root.
+Theorem dom_antisym : forall es r a b, dom es r a b -> dom es r b a -> a = b.
+Proof. exact DomTheory.dom_antisym. Qed.
+Print Assumptions dom_antisym.
+
+(* [V] the validator for topological orderings *)
+Theorem topo_check_sound : forall vs es l, topo_ok vs es l = true -> topo_order es vs l.
+Proof. exact OrderProofs.topo_ok_sound. Qed.
+Print Assumptions topo_check_sound.
+
+(* [V] the validator for transitive predecessors (p is in the set of v iff there is a non-empty walk p ->+ v) *)
+Theorem trans_preds_check_sound : forall vs es m, trans_preds_ok vs es m = true ->
+  forall v P, In (v, P) m -> forall p, In p P <-> trans_pred es p v.
+Proof. exact OrderProofs.trans_preds_ok_sound. Qed.
+Print Assumptions trans_preds_check_sound.
+
+(* [V] the oracle of is_acyclic *)
+Theorem acyclic_check_sound : forall vs es r c, tab_ok vs es r = true ->
+  has_cycle_b es (t_all (mk_tab vs es r)) = Some c -> (c = true <-> cyclic_from es r).
+Proof. exact OrderProofs.acyclic_check_sound. Qed.
+Print Assumptions acyclic_check_sound.
+
+(* [V] the validator for the dominator tree *)
+Theorem domtree_check_sound : forall vs es r tv te,
+  tab_ok vs es r = true -> domtree_ok (mk_tab vs es r) (verts vs es r) tv te = true ->
+  (forall v, In v tv <-> reach es r v) /\ (forall d v, In (d, v) te <-> idom es r d v).
+Proof. exact LoopProofs.domtree_ok_sound. Qed.
+Print Assumptions domtree_check_sound.
+
+(* [V] the oracle of is_reducible (Hecht-Ullman form; the check additionally compares with T1/T2) *)
+Theorem reducible_check_sound : forall vs es r b,
+  tab_ok vs es r = true -> reducible_fe_b (mk_tab vs es r) es = Some b ->
+  (b = true <-> forward_edges_acyclic es r).
+Proof. exact LoopProofs.reducible_fe_sound. Qed.
+Print Assumptions reducible_check_sound.
+
+(* [V] the validator for natural loops *)
+Theorem loops_check_sound : forall vs es r ls,
+  tab_ok vs es r = true -> loops_ok (mk_tab vs es r) es ls = true ->
+  (forall h, In h (map fst ls) <-> is_header es r h) /\
+  (forall h L, In (h, L) ls -> forall x, In x L <-> in_loop es r h x).
+Proof. intros vs es r ls Hok. exact (LoopProofs.loops_ok_sound vs es r Hok ls). Qed.
+Print Assumptions loops_check_sound.
+
+(* [U] compute_back_edges relative to compute_dominators: given the textbook dominator sets, the routine
+   returns exactly the edges whose target dominates their source *)
+Theorem back_edges_correct : forall (V E : Type) (HV : Vertex V) (HE : Edge E) (g : graph V E) r doms,
+  GraphInv.graph_inv g -> has_vertex g r = true ->
+  compute_dominators g r = Ok doms ->
+  (forall v, In v (map fst doms) <-> reach (edge_keys g) r v) ->
+  (forall v D, In (v, D) doms -> forall d, In d D <-> dom (edge_keys g) r d v) ->
+  exists be, compute_back_edges g r = Ok be /\ forall a b, In (a, b) be <-> back_edge (edge_keys g) r a b.
+Proof. intros V E HV HE g r doms Hgi. exact (BackEdges.back_edges_correct g Hgi r doms). Qed.
+Print Assumptions back_edges_correct.
